@@ -17,11 +17,14 @@ HDIR = os.path.join(VERIF, "harness")
 def goto_build(cfg, srcs, harness, defs=(), name=None, instrument=()):
     out = os.path.join(scratch(), (name or os.path.basename(harness)) + "." + str(abs(hash(tuple(defs) + tuple(instrument))) % 99999) + ".gb")
     cmd = ["goto-cc", "-std=c11", "-I" + HDIR] + cflags(cfg) + ["-D" + d for d in defs] + list(srcs) + [harness, "-o", out]
-    rc, so, se, _ = run(cmd, timeout=300)
+    tmpd = os.path.join(scratch(), "cbmc-tmp")       # goto-cc's preprocessor temporaries stay inside the run's scratch directory
+    os.makedirs(tmpd, exist_ok=True)
+    env = dict(os.environ, TMPDIR=tmpd)
+    rc, so, se, _ = run(cmd, timeout=300, env=env)
     if rc != 0:
         raise MachineryError("goto-cc failed for %s: %s" % (harness, (se or so)[-2000:]))
     if instrument:
-        rc, so, se, _ = run(["goto-instrument"] + list(instrument) + [out, out], timeout=300)
+        rc, so, se, _ = run(["goto-instrument"] + list(instrument) + [out, out], timeout=300, env=env)
         if rc != 0:
             raise MachineryError("goto-instrument failed for %s: %s" % (harness, (se or so)[-2000:]))
     return out
